@@ -368,6 +368,7 @@ func c03Run(s *Shard) {
 						}
 						c := &Case{Prop: "C03", Kind: "request", Req: c03Request(method, n, widx, tidx, prefix)}
 						s.Evals++
+						s.Begin(c)
 						vs := c03Check(c)
 						s.Report(vs)
 						s.Count("requests/"+method+"/"+prefix, 1)
